@@ -53,6 +53,7 @@ type frontWorld struct {
 	dir      string
 	logBuf   *bytes.Buffer
 	reloadMu sync.Mutex
+	faults   *faultStore
 }
 
 var discardLogger = slog.New(slog.NewTextHandler(io.Discard, nil))
@@ -91,6 +92,7 @@ type worldOpts struct {
 	backend  string // memory (default) | sqlite
 	withFile bool   // write the config to a file (needed for reload / management)
 	memOpts  []queue.MemoryOption
+	faults   bool // wrap the store in a faultStore (w.faults)
 }
 
 func compileSrc(src string) (config.Compiled, config.ValidationResult, error) {
@@ -136,6 +138,10 @@ func newFrontWorld(src string, o worldOpts) (*frontWorld, error) {
 			return nil, err
 		}
 		w.store = s
+	}
+	if o.faults {
+		w.faults = &faultStore{Store: w.store}
+		w.store = w.faults
 	}
 	if o.withFile {
 		if w.dir == "" {
